@@ -131,6 +131,11 @@ func (v *fnVC) newConst(prefix, sort string) T {
 }
 
 func (v *fnVC) oblige(kind, text string, goal T, pos token.Pos) {
+	if v.con != nil && v.con.Sweep && (strings.HasPrefix(kind, "pre@") || strings.HasPrefix(kind, "frame.")) {
+		// sweep functions claim their own run-time errors only: callee preconditions are assumed to hold
+		v.assume(implies(v.reach[v.blk], goal))
+		return
+	}
 	label := text
 	if strings.HasPrefix(kind, "rte.") {
 		if v.con != nil && ((v.con.NoNil && kind == "rte.nil") || v.con.NoRte) {
@@ -1341,18 +1346,25 @@ func (v *fnVC) instr(in ssa.Instruction) {
 		pt := x.X.Type().Underlying().(*types.Pointer).Elem()
 		n, _ := pt.(*types.Named)
 		st := pt.Underlying().(*types.Struct)
-		if n == nil || !inModule(n) {
-			v.unsupported = append(v.unsupported, "FieldAddr on non-module struct "+pt.String())
+		if n == nil {
+			v.unsupported = append(v.unsupported, "FieldAddr on unnamed struct "+pt.String())
 			v.havoc(x)
 			return
 		}
+		// (external named structs, e.g. a local reflect.Method: the field has an address of its own; the value
+		// stored there is unrelated to whole-struct stores, which is an over-approximation)
 		v.define(x, v.fieldAddr(n, st.Field(x.Field).Name(), base))
 	case *ssa.Field:
 		st := x.X.Type().Underlying().(*types.Struct)
 		if n, _, ok := v.isModStruct(x.X.Type()); ok {
 			v.define(x, app(structName(n)+"_"+st.Field(x.Field).Name(), v.val(x.X)))
 		} else {
-			v.havoc(x)
+			// field of an external struct value (reflect.Method, reflect.StructField, ...): an uninterpreted
+			// function of the struct value, so that two reads of the same field agree
+			fn := "xf_" + sanitize(v.P.sortOf(x.X.Type())+"_"+st.Field(x.Field).Name())
+			v.P.add(fn, fmt.Sprintf("(declare-fun %s (%s) %s)", fn, v.P.sortOf(x.X.Type()), v.P.sortOf(x.Type())))
+			v.define(x, app(fn, v.val(x.X)))
+			v.assume(v.rangeFact(v.vals[x], x.Type()))
 		}
 	case *ssa.IndexAddr:
 		idx := v.val(x.Index)
